@@ -140,3 +140,17 @@ impl ChainController {
         Request::call(&self.process_block_sender, lonely_block).is_some()
     }
 }
+
+#[cfg(feature = "verif-hooks")]
+impl ChainController {
+    /// verif-hooks: fire this node's orphan-expiry timer now. Returns when the chain-service thread
+    /// has taken the request; it then runs the real `OrphanBroker::clean_expired_orphans` before it
+    /// handles any later request, so a following `verif_process_lonely_block_sync` is a fence.
+    /// (With the feature on the 60 s ticker itself is replaced by this trigger.)
+    pub fn verif_clean_expired_orphans(&self) -> bool {
+        crate::verif_expire::fire(
+            Arc::as_ptr(&self.orphan_block_broker) as usize,
+            std::time::Duration::from_secs(30),
+        )
+    }
+}
